@@ -74,6 +74,10 @@ pub(crate) struct InternalStorage<Db: Database> {
     pub(crate) derived_nodes: BoxcarVec<DerivedNode<Db>>,
     pub(crate) derived_node_dependencies: BoxcarVec<Vec<Dependency>>,
     pub(crate) source_nodes: BoxcarVec<Option<SourceNode>>,
+    /// The epoch at which each currently absent source was removed, so that
+    /// a function that observed the absence can tell whether it is still the
+    /// same absence.
+    pub(crate) source_removed_at: DashMap<Key, Epoch>,
     pub(crate) params: BoxcarVec<Box<dyn Any>>,
     pub(crate) current_epoch: Epoch,
 }
@@ -94,6 +98,7 @@ impl<Db: Database> Storage<Db> {
                 source_node_key_to_index: DashMap::new(),
 
                 source_nodes: BoxcarVec::new(),
+                source_removed_at: DashMap::new(),
                 derived_nodes: BoxcarVec::new(),
                 derived_node_dependencies: BoxcarVec::new(),
                 params: BoxcarVec::new(),
@@ -132,7 +137,15 @@ impl<Db: Database> Storage<Db> {
     }
 
     fn get_impl<T: 'static>(&self, key: Key) -> Option<&T> {
-        let source_node = self.internal.get_source_node(key)?;
+        let Some(source_node) = self.internal.get_source_node(key) else {
+            // Reading an absent source is a dependency too: the caller must be
+            // re-executed once the source is created.
+            self.register_dependency_in_parent_memoized_fn(
+                NodeKind::Source(key),
+                self.internal.source_removed_at(key),
+            );
+            return None;
+        };
 
         self.register_dependency_in_parent_memoized_fn(
             NodeKind::Source(key),
@@ -316,6 +329,13 @@ impl<Db: Database> InternalStorage<Db> {
             .as_ref()
     }
 
+    /// When the (currently absent) source was removed; the initial epoch if it never existed.
+    pub(crate) fn source_removed_at(&self, key: Key) -> Epoch {
+        self.source_removed_at
+            .get(&key)
+            .map_or_else(Epoch::new, |epoch| *epoch)
+    }
+
     pub(crate) fn insert_source_node(&self, source_node: SourceNode) -> Index<SourceNode> {
         Index::new(self.source_nodes.push(Some(source_node)))
     }
@@ -348,18 +368,23 @@ impl<Db: Database> InternalStorage<Db> {
                 }
             }
             Entry::Vacant(vacant_entry) => {
+                // A function may have observed that this source was absent, so
+                // creating it is a change like any other.
+                let next_epoch = self.current_epoch.increment();
                 let index = self.insert_source_node(SourceNode {
-                    time_updated: self.current_epoch,
+                    time_updated: next_epoch,
                     value: Box::new(source),
                 });
                 vacant_entry.insert(index);
+                self.source_removed_at.remove(&source_id.key);
             }
         }
     }
 
     pub fn remove_source<T>(&mut self, id: SourceId<T>) {
         if let Some((_, index)) = self.source_node_key_to_index.remove(&id.key) {
-            self.current_epoch.increment();
+            let removed_at = self.current_epoch.increment();
+            self.source_removed_at.insert(id.key, removed_at);
             self.source_nodes
                 .get_mut(index.idx)
                 .expect(
